@@ -17,7 +17,8 @@ class Policy:
     def __init__(self, max_array=4, max_map=2, max_text=2, text_mode="concrete",
                  bytes_mode="opaque", max_bytes=2, max_depth=6, kinds=None,
                  max_total_entries=None, max_total_items=None, max_nested_array=None,
-                 max_nested_map=None, root_kinds=None, root_lens=None, map_value_kinds=None):
+                 max_nested_map=None, root_kinds=None, root_lens=None, map_value_kinds=None,
+                 map_lens=None):
         self.max_array, self.max_map, self.max_text = max_array, max_map, max_text
         self.text_mode, self.bytes_mode, self.max_bytes = text_mode, bytes_mode, max_bytes
         self.max_depth = max_depth
@@ -28,6 +29,7 @@ class Policy:
         self.max_nested_array, self.max_nested_map = max_nested_array, max_nested_map
         # optional restrictions (stated bounds): kinds / lengths of the root item, kinds of map values
         self.root_kinds, self.root_lens, self.map_value_kinds = root_kinds, root_lens, map_value_kinds
+        self.map_lens = map_lens          # allowed map sizes (e.g. [0, 2]: empty or exactly two entries)
 
     def for_node(self, node):
         """Hook: harnesses subclass to vary bounds by position (node.path)."""
@@ -106,7 +108,11 @@ class InputNode:
                 cap = pol.max_nested_map
             if pol.max_total_entries is not None:
                 cap = max(0, min(cap, pol.max_total_entries - ctx.side.get("entries_used", 0)))
-            n = ctx.choose(cap + 1, "len@" + p)
+            if pol.map_lens:
+                lens = [x for x in pol.map_lens if x <= cap] or [0]
+                n = lens[ctx.choose(len(lens), "len@" + p)]
+            else:
+                n = ctx.choose(cap + 1, "len@" + p)
             ctx.side["entries_used"] = ctx.side.get("entries_used", 0) + n
             self.entries = [(InputNode("%s{%d}k" % (p, i), self.policy, self.depth + 1, "key"),
                              InputNode("%s{%d}v" % (p, i), self.policy, self.depth + 1, "value")) for i in range(n)]
